@@ -34,6 +34,10 @@ def run_mutant(m):
             subprocess.run(["git", "init", "-q"], cwd=repo)
             r = subprocess.run(["git", "apply", "--whitespace=nowarn", m["patch"]], cwd=repo, stdout=subprocess.PIPE, stderr=subprocess.STDOUT, text=True)
             if r.returncode != 0:
+                # the tree has moved on since the patch was written (a later `fix:` commit): try with fuzz
+                r = subprocess.run(["patch", "-p1", "-s", "--fuzz=3", "--no-backup-if-mismatch", "-i", m["patch"]], cwd=repo,
+                                   stdout=subprocess.PIPE, stderr=subprocess.STDOUT, text=True)
+            if r.returncode != 0:
                 res["status"] = "skipped"
                 res["detail"] = "seed patch no longer applies: " + r.stdout[-200:]
                 return res
@@ -118,7 +122,7 @@ def seed_mutants(prop=None):
         if not os.path.exists(mp):
             continue
         meta = json.load(open(mp))
-        if meta.get("not_statically_detectable"):
+        if meta.get("not_statically_detectable") or meta.get("obsolete"):
             continue
         nv = (meta.get("static_checks") or {}).get("new_violations") or {}
         own = meta["property"]
